@@ -61,6 +61,8 @@ var (
 	fn    func(int) int
 	fn2   func(int, string) (int, error)
 	fnv   func(a int, b ...int) int
+	fnv3  func(scale int, label string, xs ...float64) float64
+	fnvs  func(xs ...string) string
 	fb    func(int) bool
 	ffe   func(int) (int, error)
 	fcur  func(int) func(string) bool
@@ -76,7 +78,7 @@ var (
 `
 
 var argTemplates = []string{"", "i", "i, i", "i, s", "i, i, i", "s, s", "b, b", "cx, cx", "sl", "sl, sl", "sl, sl2", "sl, i", "sl, s", "slb, b", "slc, cx", "slb", "slc",
-	"m", "m, m", "fn", "fn, sl", "fn, sl2", "fn, i", "fn, s", "fb, sl", "fb, sl2", "fn2", "fn2, i", "fnv", "fnv, i", "fcur", "f0", "f0, f0", "fs, s", "fn, fs",
+	"m", "m, m", "fn", "fn, sl", "fn, sl2", "fn, i", "fn, s", "fb, sl", "fb, sl2", "fn2", "fn2, i", "fnv", "fnv, i", "fnv3", "fnv3, i", "fnv3, s", "fnvs", "fnvs, sl2", "fcur", "f0", "f0, f0", "fs, s", "fn, fs",
 	"fRetIface, fTakesImpl", "fRetImpl, fTakesIfc", "fRetRecv, fTakesChan", "fRetErrIfc, fTakesImpE", "fTakesImpl, slShapes", "fTakesIfc, slSquares",
 	"slShapes, sq", "slSquares, shp", "slShapes, slSquares", "sq, shp", "shp, sq", "fTakesImpl, shp", "fTakesIfc, sq",
 	"ch", "ch, ch", "fn, ch", "chch", "iface", "iface, iface", "st, st", "pst, pst", "pst", "nil", "nil, nil", "err, fb", "ffe, sl", "fn, fn", "fn2, fn", "i, fn", "ffe, ffe", "sl, fn"}
